@@ -20,6 +20,11 @@
 (*   Inv.RoundTrip        StrToBigInt(BigIntToStr(n)) = n                  *)
 (*   Inv.Rescale.identity rescaling at 18 decimals is the identity         *)
 (*   Inv.EthValue         the value of a wrapped transaction is unchanged  *)
+(*   Inv.EthValue.callvalue / .credited:<recipient>:<p015|pre015>  what    *)
+(*                        the EVM's outer frame received / the recipient    *)
+(*                        was credited when the transaction was executed    *)
+(*   Inv.EthValue.argument-unchanged:<fn>  a *big.Int handed to a converter*)
+(*                        or the account state keeps its value             *)
 (*   Inv.Total.panic      a call panicked                                  *)
 (* Conformance tags (the reference says more than the statement):          *)
 (*   format-text          exact text of BigIntToStr                        *)
@@ -99,8 +104,28 @@ JudgeParseRaw(e) ==
             ELSE IF ~e.ok THEN (IF plain THEN <<"Inv.Parse.rejected:" \o e.cls>> ELSE <<>>)
             ELSE Tag(Coherent(e.out), "Proj.out") \o Tag(NumOf(e.out) = dn.n, "Inv.Parse.exact:" \o e.cls))
 
+(* the EVM end: a wrapped Ethereum transaction with value n was executed through the node's executor
+   against a contract that stores CALLVALUE; out = the CALLVALUE the outer frame received, credited =
+   what the recipient's balance grew by.  Identity at 18 decimals: both are n, whether the recipient
+   was fresh or already funded, below and above Proposal015. *)
+JudgeEvmValue(e) ==
+  LET n == NumOf(e.n)
+      who == e.recipient \o (IF e.p015 THEN ":p015" ELSE ":pre015") IN
+  Tag(Coherent(e.n) /\ ~e.n.neg, "Proj.in") \o
+  Tag(~e.panic, "Inv.Total.panic") \o
+  (IF e.panic \/ ~e.ok THEN <<>>
+   ELSE Tag(Coherent(e.out) /\ NumOf(e.out) = n, "Inv.EthValue.callvalue:" \o who) \o
+        Tag(Coherent(e.credited) /\ NumOf(e.credited) = n, "Inv.EthValue.credited:" \o who))
+
+(* the integer a caller hands to a converter / to the account state still holds its value afterwards *)
+JudgeAlias(e) ==
+  Tag(~e.panic, "Inv.Total.panic") \o
+  (IF e.panic THEN <<>> ELSE Tag(e.after = e.n, "Inv.EthValue.argument-unchanged:" \o e.fn))
+
 Judge(e) ==
   CASE e.event = "Parse" -> JudgeParse(e)
+    [] e.event = "EvmValue" -> JudgeEvmValue(e)
+    [] e.event = "Alias" -> JudgeAlias(e)
     [] e.event = "ParseRaw" -> JudgeParseRaw(e)
     [] e.event = "Format" -> JudgeFormat(e)
     [] e.event = "RoundTrip" -> JudgeRoundTrip(e)
